@@ -17,6 +17,7 @@ import (
 	"github.com/IrineSistiana/mosproxy/internal/pool"
 	"github.com/IrineSistiana/mosproxy/internal/verifhook"
 
+	"github.com/IrineSistiana/mosproxy/verif/internal/clock"
 	"github.com/IrineSistiana/mosproxy/verif/internal/gen"
 	"github.com/IrineSistiana/mosproxy/verif/internal/racelog"
 	"github.com/miekg/dns"
@@ -45,6 +46,8 @@ func runC07(c *Ctx) {
 			c07Stress(c)
 		case "hits":
 			c07ConcurrentHits(c)
+		case "late":
+			c07LateRepeat(c)
 		case "porcupine":
 			c07Porcupine(c)
 		case "pairs":
@@ -55,9 +58,10 @@ func runC07(c *Ctx) {
 		return
 	}
 	var wg sync.WaitGroup
-	wg.Add(2)
+	wg.Add(3)
 	go func() { defer wg.Done(); c07Pairs(c) }()
 	go func() { defer wg.Done(); c07History(c) }()
+	go func() { defer wg.Done(); c07LateRepeat(c) }()
 	wg.Wait()
 	c07Porcupine(c)
 	c07Stress(c)
@@ -588,5 +592,71 @@ func c07ConcurrentHits(c *Ctx) {
 		c.Violation("concurrent-lookups:miss-on-live-entry", fmt.Sprintf("%d of %d lookups of %d entries stored once (lifetime 1 h, cache 64 MiB, nothing stored or evicted meanwhile) missed while other lookups of the same entry were in progress: the query would go upstream although the entry is alive", misses.Load(), hits.Load()+misses.Load(), nKeys), map[string]any{"fn": "c07ConcurrentHits", "misses": misses.Load(), "hits": hits.Load()})
 	default:
 		c.Ev.Distinct("concurrent-lookups", "all-hit", fired > 0)
+	}
+}
+
+// c07LateRepeat: the converse clause at its edge. Ten questions with a 6 s lifetime, each repeated
+// 4.5 s after its answer arrived - 1.5 s of the lifetime remain, more than the cache clock's
+// one-second granularity - must be answered from the cache (same upstream reply, no new fetch).
+func c07LateRepeat(c *Ctx) {
+	b, err := NewBed(c, "late", BedOpts{Upstreams: []string{"pipe"}, MemSize: 16 << 20, Listeners: []string{"tcp", "udp"}})
+	if err != nil {
+		c.startFailure(err, "c07-late")
+		return
+	}
+	lag := startLagMonitor()
+	h := &chHist{}
+	type res struct {
+		name          string
+		first, second *chResp
+	}
+	out := make([]res, c.N(10, 40))
+	var wg sync.WaitGroup
+	for i := range out {
+		wg.Add(1)
+		go func(i int) {
+			defer wg.Done()
+			time.Sleep(time.Duration(i*137) * time.Millisecond) // spread over the phases of the cache clock
+			name := fmt.Sprintf("ok-n2-ttl6-late%dx%d.pipe.test.", i, c.Seed)
+			first := h.query(b, "tcp", "", "", name, dns.TypeA, dns.ClassINET, "store", "")
+			if first.Err != "" || first.Serial == 0 {
+				return
+			}
+			time.Sleep(4500*time.Millisecond - time.Duration(clock.Now()-first.TRecv))
+			second := h.query(b, []string{"tcp", "udp"}[i%2], "", "", name, dns.TypeA, dns.ClassINET, "late-repeat", "")
+			out[i] = res{name, first, second}
+		}(i)
+	}
+	wg.Wait()
+	fetches := fetchesOf(b, "pipe")
+	lag.Stop()
+	b.Stop()
+	var missed []string
+	checked := 0
+	for _, r := range out {
+		if r.first == nil || r.second == nil || r.second.Err != "" {
+			continue
+		}
+		c.Ev.Eval(1)
+		age := time.Duration(r.second.TSend - r.first.TRecv)
+		if age > 4800*time.Millisecond { // scheduling pushed the repeat too close to the end
+			continue
+		}
+		checked++
+		// (a second upstream fetch alone is no miss: a hit this late starts a background refresh)
+		if r.second.Serial != r.first.Serial {
+			missed = append(missed, fmt.Sprintf("%s (repeat at age %v: reply %d, first reply %d, upstream fetches %d)", r.name, age, r.second.Serial, r.first.Serial, len(fetches[chKey(r.name, dns.TypeA, dns.ClassINET)])))
+		}
+	}
+	c.Ev.Count("late_repeats_checked", int64(checked))
+	switch {
+	case len(missed) >= 2 && lag.overloaded():
+		c.Inconclusive(fmt.Sprintf("late repeats: %d misses on an overloaded machine (timer lag %v)", len(missed), lag.Max()))
+	case len(missed) >= 2:
+		c.Violation("late-repeat:miss-inside-lifetime", fmt.Sprintf("%d of %d repeats sent 4.5 s after the answer to a question with a 6 s lifetime (1.5 s remaining, the cache clock's granularity is 1 s) went upstream again: %s", len(missed), checked, strings.Join(missed[:min(len(missed), 3)], "; ")), map[string]any{"fn": "c07LateRepeat", "missed": missed})
+	case len(missed) == 1:
+		c.Inconclusive("late repeats: a single miss: " + missed[0])
+	case checked > 0:
+		c.Ev.Distinct("late-repeat", "all-hit", checked >= 8)
 	}
 }
